@@ -178,6 +178,26 @@ Proof.
   exists s', out. rewrite D in So. auto.
 Qed.
 
+(* ---- layered classes: the method calls the simulator issues (one call per qubit k = 0..n-1: the gate on its qubit,
+        I(k) elsewhere, nothing for the target of a two-qubit gate; rz: only Rz) and how a stored layer is read ---- *)
+Definition layered_op_of (n : nat) (f fi : frame) (x : instr) : list (op M) :=
+  let tk := token f fi (compile f fi x) in
+  match x with
+  | NRz q th => [ORz M (Z.of_nat q) (ph th)]
+  | NX q | NSX q => map (fun k => if k =? q then OX M tk (Z.of_nat k) else OI M (Z.of_nat k)) (seq 0 n)
+  | NCX c t => flat_map (fun k => if k =? c then [OCNOT M tk (Z.of_nat c) (Z.of_nat t)] else if k =? t then [] else [OI M (Z.of_nat k)]) (seq 0 n)
+  | NECR c t => flat_map (fun k => if k =? c then [OECR M tk (Z.of_nat c) (Z.of_nat t)] else if k =? t then [] else [OI M (Z.of_nat k)]) (seq 0 n)
+  end.
+Fixpoint layered_ops_from (n : nat) (ff : frame * frame) (p : list instr) : list (op M) :=
+  match p with [] => [] | x :: r => layered_op_of n (fst ff) (snd ff) x ++ layered_ops_from n (fstep ff x) r end.
+Definition layered_ops (n : nat) (p : list instr) : list (op M) := layered_ops_from n (ff_one R rI) p.
+Definition ent_den (e : Builders.entry M) : Backends.entry R :=
+  match e with
+  | Builders.En2 (M2 _ a) => Backends.En2 a
+  | Builders.En4 (M4 _ g) => Backends.En4 g
+  | _ => Backends.EnOne
+  end.
+
 (* ---- the builder's symbolic virtual phases and the frame move together ----
    E reads a symbolic phase a + b*pi/2 as a ring element (over C: exp(i * phase)); it only has to be multiplicative and
    to send quarter turns to powers of i and the recorded rz angle to the rz factor.  Then the frame at which every token
